@@ -3150,7 +3150,7 @@ def big_ints(rng, quick):
         out.append((lab, n, None))
     for d in (4299, 4300, 4301, 5000):
         out.append(("%d-digits" % d, 10 ** (d - 1) + rng.randrange(10 ** 50), None))
-    ks = [3500, 3571, 3572, 3600, 4300] if quick else [3500, 3550, 3571, 3572, 3573, 3600, 3800, 4000, 4299, 4300]
+    ks = [3500, 3572, 3600, 4300] if quick else [3500, 3550, 3571, 3572, 3573, 3600, 3800, 4000, 4299, 4300]
     for k in ks:
         for dg in ("1", "9", None):
             ds = dg * k if dg else "".join(rng.choice("0123456789") for _ in range(k - 1)) + "7"
@@ -3214,7 +3214,7 @@ def run_bigint(chk, quick):
             group = [(n, lab)] + ([(sib, lab + "/decimal-sibling")] if sib is not None else [])
             for m, mlab in group:
                 p = big_plain(m, place)
-                runs = [("object:" + k, big_eval_object(p, k)) for k in (["ruamel", "plain"] if m is n else ["ruamel"])]
+                runs = [("object:" + k, big_eval_object(p, k)) for k in (["ruamel", "plain"] if m is n and (place in ("value", "key") or not quick) else ["ruamel"])]
                 if m is n:
                     lits = [("hex", ("-0x%x" % -m) if m < 0 else "0x%x" % m)]
                     if "octal" in lab:
